@@ -25,11 +25,12 @@ theorem gen_localEsc_consistent : Gen.turtle_localEsc_consistent = true := by de
 example : PNLocalOK Gen.turtle (asc "-a.b%c:~d.") = true := by decide
 example : format_PN_LOCAL Gen.turtle (asc "-a.b%c:~d.") = some (asc "\\-a.b\\%c:\\~d\\.") := by decide
 example : prefixOK Gen.turtle (asc "a.b-c") = true ∧ prefixOK Gen.turtle [] = true := by decide
-example : LocalStop Gen.turtle .eof (asc " .") ∧ LocalStop Gen.turtle .eof [] ∧
-    LocalStop Gen.trig .ioerr (asc "\n") := by
-  refine ⟨?_, rfl, ?_⟩ <;> simp only [LocalStop] <;> decide
-example : NumStop .eof (asc " .") ∧ NumStop .eof (asc ". ") ∧ NumStop .eof (asc ";") := by
-  refine ⟨?_, ?_, ?_⟩ <;> simp only [NumStop] <;> decide
+example : LocalStop Gen.turtle .eof [0x20, 0x2e] := by simp only [LocalStop]; decide
+example : LocalStop Gen.turtle .eof [] := rfl
+example : LocalStop Gen.trig .ioerr [0x0a] := by simp only [LocalStop]; decide
+example : NumStop .eof [0x20, 0x2e] := by simp only [NumStop]; decide
+example : NumStop .eof [0x2e, 0x20] := by simp only [NumStop]; decide
+example : NumStop .ioerr [0x3b] := by simp only [NumStop]; decide
 example : langOK (asc "en-Latn-US-x-a1") = true := by decide
 example : labelOK Gen.turtle (asc "b0.x-1") = true := by decide
 
@@ -44,16 +45,20 @@ theorem d5_witness :
     format_PN_LOCAL Gen.turtle (asc "a b") = some (asc "a%20b") ∧
     PNLocalOK Gen.turtle (asc "a b") = false := by decide
 
+/-- `r = .ok v rest`, as a Boolean (`Res` carries no decidable equality). -/
+def okIs {α : Type} [BEq α] (r : Res α) (v : α) (rest : List Nat) : Bool :=
+  match r with
+  | .ok v' r' => v' == v && r' == rest
+  | _ => false
+
 /-- D6, repaired: `:\.` is the local name "." (the unrepaired code indexed a slice at −1 here);
     `:c\.` keeps its dot; an unescaped final '.' is handed back. Both packages. -/
 theorem d6_witness :
-    (∀ T ∈ [Gen.turtle, Gen.trig],
-      (match producePrefixedName T .eof (asc ":\\. .") with
-        | .ok v r => v = ([], asc ".") ∧ r = asc " ." | _ => False) ∧
-      (match producePrefixedName T .eof (asc ":c\\. .") with
-        | .ok v r => v = ([], asc "c.") ∧ r = asc " ." | _ => False) ∧
-      (match producePrefixedName T .eof (asc "p:c. ") with
-        | .ok v r => v = (asc "p", asc "c") ∧ r = asc ". " | _ => False)) := by decide
+    [Gen.turtle, Gen.trig].all (fun T =>
+      okIs (producePrefixedName T .eof (asc ":\\. .")) ([], asc ".") (asc " .") &&
+      okIs (producePrefixedName T .eof (asc ":c\\. .")) ([], asc "c.") (asc " .") &&
+      okIs (producePrefixedName T .eof (asc "p:c. ")) (asc "p", asc "c") (asc ". ")) = true := by
+  decide
 
 /-- D4, repaired: no shorthand for xsd:long, none when the lexical form is not a token of the
     datatype's grammar rule. -/
